@@ -350,5 +350,22 @@ pub fn run(ctx: &Ctx) {
         let (s, v) = super::c06::raw(&vec![0x11u8; n as usize]);
         check_stacks(&s, &v, l)
     });
+    // payload lengths at the 2/3-byte and 3/4-byte boundaries of the length prefix
+    {
+        let lens: Vec<usize> = vec![127, 128, 16383, 16384, 16385, 32768, 40000];
+        let lens = &lens;
+        ctx.par_range("stacks-long-lengths", (lens.len() * 3) as u64, move |i, l| {
+            let i = i as usize;
+            let n = lens[i % lens.len()];
+            let (s, v) = match i / lens.len() {
+                0 => (Shape::ByteBuf, Value::Bytes((0..n).map(|k| (k % 251) as u8).collect())),
+                1 => (Shape::Tuple(vec![Shape::U8, Shape::String]), Value::List(vec![Value::U(9), Value::Str("q".repeat(n))])),
+                _ => (Shape::Seq(Box::new(Shape::Bool)), Value::List(vec![Value::Bool(true); n.min(70000)])),
+            };
+            l.class("long-length-prefix");
+            check_stacks(&s, &v, l)?;
+            check_user_flavours(&s, &v, l)
+        });
+    }
     ctx.par_proptest("user-flavours", n * 2, || gen::arb_typed(scfg.clone(), ValCfg { max_len: 300, max_seq: 4 }), |(s, v), l| check_user_flavours(s, v, l));
 }
